@@ -31,12 +31,15 @@ def one(meta: Path) -> tuple[str, dict]:
 
 def main() -> None:
     metas = sorted((VERIF / "seeded").glob("*/*/meta.json"))
+    ids = [x for x in os.environ.get("ONLY_IDS", "").split(",") if x]
+    if ids:
+        metas = [m for m in metas if f"{m.parent.parent.name}/{m.parent.name}" in ids]
     out = {}
     with ThreadPoolExecutor(max_workers=int(os.environ.get("JOBS", "3"))) as ex:
         for sid, res in ex.map(one, metas):
             out[sid] = res
             print(sid, {q: v["exit"] for q, v in res.items() if isinstance(v, dict) and v.get("exit")}, flush=True)
-            Path("/var/tmp/seed-matrix.json").write_text(json.dumps(out, indent=1))
+            Path(os.environ.get("MATRIX_OUT", "/var/tmp/seed-matrix.json")).write_text(json.dumps(out, indent=1))
     shutil.rmtree(SCR, ignore_errors=True)
 
 if __name__ == "__main__":
